@@ -5,6 +5,7 @@ pub open spec fn w_present(epoch: u64, keys: Set<Ed25519PK>) -> spec_fn(StakeDoc
 }
 pub open spec fn spec_present(m: Map<TxHash, StakeDoc>, epoch: u64, keys: Set<Ed25519PK>) -> int { map_fsum(m, w_present(epoch, keys)) }
 pub open spec fn votes_of(m: Map<TxHash, StakeDoc>, epoch: u64) -> spec_fn(Ed25519PK) -> int { |k: Ed25519PK| spec_votes(m, epoch, Some(k)) }
+//@LEMMA C14 lemma_present sum of per-key votes over distinct keys = joint voting power of the key set, at most the total
 pub proof fn lemma_present(m: Map<TxHash, StakeDoc>, epoch: u64, ks: Seq<Ed25519PK>)
     requires ks.no_duplicates()
     ensures fsum(ks, votes_of(m, epoch)) == spec_present(m, epoch, ks.to_set()),
@@ -44,6 +45,7 @@ pub proof fn lemma_present(m: Map<TxHash, StakeDoc>, epoch: u64, ks: Seq<Ed25519
 pub proof fn lemma_fsum_zero<T>(s: Seq<T>) ensures fsum(s, |x: T| 0int) == 0 decreases s.len()
 { if s.len() > 0 { lemma_fsum_zero(s.drop_last()); } }
 /// adding a signing key never decreases the signers' joint voting power (C14 monotonicity)
+//@LEMMA C14 lemma_present_monotone adding a signing key never decreases the signers joint voting power
 pub proof fn lemma_present_monotone(m: Map<TxHash, StakeDoc>, epoch: u64, a: Set<Ed25519PK>, b: Set<Ed25519PK>)
     requires a.subset_of(b)
     ensures spec_present(m, epoch, a) <= spec_present(m, epoch, b)
@@ -55,6 +57,7 @@ pub proof fn lemma_present_monotone(m: Map<TxHash, StakeDoc>, epoch: u64, a: Set
     lemma_fsum_le(e, at(m, pa), at(m, pb));
 }
 /// 3S > 2T  <=>  S > floor(2T/3) as the repaired code computes it
+//@LEMMA C14 lemma_two_thirds 3S > 2T iff S > floor(2T/3) as computed
 pub proof fn lemma_two_thirds(s: int, t: int)
     requires 0 <= s, 0 <= t
     ensures (3 * s > 2 * t) <==> (s > t / 3 * 2 + (t % 3) * 2 / 3)
